@@ -15,7 +15,7 @@ use std::sync::atomic::{AtomicBool, Ordering};
 use tokio::net::{TcpListener, TcpStream};
 
 const RULE: &str = "one case = one cell of the full matrix {server certificate issued by the client's trusted CA / another CA / self-signed} x {requested name matches / differs} x {skip-verify on/off} x {client certificate: none / under the server's client CA / under another CA} x {server client-CA configured / not} (72 cells, both ECDSA P-256 and P-384 material in thorough), \
-each executed as a real handshake over loopback through run_listener + tls_connect followed by GET /health; plus a CertificateRequest probe with a recording client-certificate resolver, a 12-cell matrix of the name a real client asks for (client_main_inner with --tls-server-name / --hostname / neither, against certificates valid for each of the three names), probes with CA bundles that contain no certificate (server client-CA, reload, client roots) while the system trust store holds a CA that would accept the peer, identity reload cycles with an established connection kept open, and the operator's path (server_main with certificate files, files replaced, SIGUSR1, three or more times in a row, with and without a client CA) after each of which the client-certificate column and the CertificateRequest probe are repeated. \
+each executed as a real handshake over loopback through run_listener + tls_connect followed by GET /health; plus a CertificateRequest probe with a recording client-certificate resolver, reload probes with a client that re-uses its TLS session state (identity and client-CA replaced), a 12-cell matrix of the name a real client asks for (client_main_inner with --tls-server-name / --hostname / neither, against certificates valid for each of the three names), probes with CA bundles that contain no certificate (server client-CA, reload, client roots) while the system trust store holds a CA that would accept the peer, identity reload cycles with an established connection kept open, and the operator's path (server_main with certificate files, files replaced, SIGUSR1, three or more times in a row, with and without a client CA) after each of which the client-certificate column and the CertificateRequest probe are repeated. \
 Oracle: the reference truth table of the statement. Exhaustive over the matrix. Non-trivial = every cell; distinct = distinct (cell, key type)";
 
 struct Pki {
@@ -263,6 +263,69 @@ async fn reload(st: &mut Stats, pki: &Pki, cycles: usize) {
             other_res => st.violation(Violation { signature: "reload-disturbed-connection".into(), detail: format!("cycle {cycle}: the connection established before the reload failed afterwards: {:?}", other_res.map(|x| x.0.status)), replay: json!({"kind": "c17-reload", "cycle": cycle}) }),
         }
         st.nontrivial(mix(0x17, cycle as u64));
+    }
+}
+
+/// A TLS session is not a licence: a client that keeps its session tickets (one `ClientConfig` re-used) must go through a
+/// full handshake against whatever identity and client-CA policy is current after a reload.
+async fn resumption_across_reload(st: &mut Stats, pki: &Pki) {
+    use rustls::pki_types::pem::PemObject;
+    use rustls::pki_types::{CertificateDer, PrivateKeyDer};
+    let provider = rustls::crypto::CryptoProvider::get_default().expect("provider").clone();
+    let base = || rustls::ClientConfig::builder_with_provider(provider.clone()).with_safe_default_protocol_versions().expect("versions").dangerous().with_custom_certificate_verifier(Arc::new(NoVerify(provider.clone())));
+    // one exchange over a connection made with `cfg`; returns (HTTP answered 200, the end-entity certificate the server is taken to have)
+    async fn exchange(addr: SocketAddr, cfg: &Arc<rustls::ClientConfig>) -> (bool, Option<Vec<u8>>) {
+        let Ok(tcp) = TcpStream::connect(addr).await else { return (false, None) };
+        let name = rustls::pki_types::ServerName::try_from("localhost").expect("name");
+        let Ok(Ok(s)) = tokio::time::timeout(std::time::Duration::from_secs(10), tokio_rustls::TlsConnector::from(cfg.clone()).connect(name, tcp)).await else { return (false, None) };
+        let cert = s.get_ref().1.peer_certificates().and_then(|c| c.first()).map(|c| c.as_ref().to_vec());
+        // (reading the response also lets the client store the TLS 1.3 session tickets)
+        let ok = matches!(net::raw_http(s, REQ, false).await, Ok((r, _, _)) if r.status == 200);
+        (ok, cert)
+    }
+    st.evaluations += 1;
+    // (a) identity replaced
+    if let Ok(identity) = make_tls_identity(&pki.p("srv-trusted.pem"), &pki.p("srv-trusted.key"), None).await {
+        let addr = start(identity.clone()).await;
+        let cfg = Arc::new(base().with_no_client_auth());
+        let (ok1, cert1) = exchange(addr, &cfg).await;
+        let _ = exchange(addr, &cfg).await; // a resumed one under the same identity: legitimate
+        let reloaded = reload_tls_identity(&identity, &pki.p("srv-other.pem"), &pki.p("srv-other.key"), None).await.is_ok();
+        let (_ok2, cert2) = exchange(addr, &cfg).await;
+        let (_ok3, cert3) = exchange(addr, &Arc::new(base().with_no_client_auth())).await;
+        if ok1 && reloaded && cert1.is_some() && cert3.is_some() && cert3 != cert1 {
+            st.target("resumption_probes", 1);
+            if cert2 == cert1 {
+                st.violation(Violation { signature: "reload|resumed-session-sees-old-identity".into(), detail: "the server identity was replaced at run time; a client that re-used its TLS session state still completed a handshake under the old certificate (a fresh client sees the new one)".into(), replay: json!({"kind": "c17-resumption", "part": "identity"}) });
+            }
+        } else {
+            st.inconclusive.push("c17 resumption probe (identity): precondition failed".into());
+        }
+    }
+    // (b) client-CA replaced
+    let (Ok(chain), Ok(key)) = (CertificateDer::pem_file_iter(pki.p("cli-trusted.pem")).map(|it| it.filter_map(Result::ok).collect::<Vec<_>>()), PrivateKeyDer::from_pem_file(pki.p("cli-trusted.key"))) else {
+        st.inconclusive.push("c17 resumption probe: cannot load the client certificate".into());
+        return;
+    };
+    if let Ok(identity) = make_tls_identity(&pki.p("srv-trusted.pem"), &pki.p("srv-trusted.key"), Some(&pki.p("cax.pem"))).await {
+        let addr = start(identity.clone()).await;
+        let Ok(cfg) = base().with_client_auth_cert(chain, key) else {
+            st.inconclusive.push("c17 resumption probe: client config".into());
+            return;
+        };
+        let cfg = Arc::new(cfg);
+        let (ok1, _) = exchange(addr, &cfg).await;
+        let reloaded = reload_tls_identity(&identity, &pki.p("srv-trusted.pem"), &pki.p("srv-trusted.key"), Some(&pki.p("ca2.pem"))).await.is_ok();
+        let (ok2, _) = exchange(addr, &cfg).await;
+        if ok1 && reloaded {
+            st.target("resumption_probes", 1);
+            st.nontrivial(mix(0x5E55, 2));
+            if ok2 {
+                st.violation(Violation { signature: "reload|resumed-session-bypasses-client-ca".into(), detail: "the client-CA bundle was replaced at run time by one that does not cover the client's certificate; the client, re-using its TLS session state, was still served".into(), replay: json!({"kind": "c17-resumption", "part": "client-ca"}) });
+            }
+        } else {
+            st.inconclusive.push(format!("c17 resumption probe (client CA): precondition failed (first exchange ok = {ok1}, reload ok = {reloaded})"));
+        }
     }
 }
 
@@ -534,6 +597,7 @@ pub fn run(p: &Params) -> (Stats, &'static str) {
         rt.block_on(reload(&mut st, &pki, if p.tier_thorough { 6 } else { 2 }));
         rt.block_on(empty_bundle_probes(&mut st, &pki));
         rt.block_on(client_name_matrix(&mut st, &pki));
+        rt.block_on(resumption_across_reload(&mut st, &pki));
         for client_ca in [true, false] {
             rt.block_on(reload_by_signal(&mut st, &pki, if p.tier_thorough { 6 } else { 3 }, client_ca));
         }
